@@ -636,6 +636,14 @@ def chooser_follow(schedule):
 def _run_batch(args):
     scs, tmproot, mode = args
     sys.path.insert(0, REPO)
+    try:
+        # a pipeline that keeps one descriptor per detection works on every small input; with a modest limit a few hundred
+        # detections are enough to tell (the default soft limit of 1024 would need thousands)
+        import resource
+        soft, hard = resource.getrlimit(resource.RLIMIT_NOFILE)
+        resource.setrlimit(resource.RLIMIT_NOFILE, (min(soft, 200) if soft > 0 else 200, hard))
+    except Exception:  # noqa
+        pass
     out = []
     os.makedirs(tmproot, exist_ok=True)
     for sc in scs:
@@ -693,7 +701,8 @@ def rand_scenario(rng, tier, prop):
     sr = rng.choice([10, 100, 16000])
     silence = 0.0
     for _ in range(50):
-        silence = max(0.0, float("%.6g" % ((rng.randint(0, 12) + rng.choice([-0.4, -0.3, 0, 0.3, 0.4])) / sr)))
+        nfr = rng.randint(0, 12) if rng.random() < .7 else rng.choice([255, 256, 512, 1023, 1024, 1025, 2048, 3072, 4096, 8192, 65536])   # buffer-sized gaps too
+        silence = max(0.0, float("%.6g" % ((nfr + rng.choice([-0.4, -0.3, 0, 0.3, 0.4])) / sr)))
         fr = (__import__("fractions").Fraction(str(silence)) * sr) % 1
         if abs(fr - __import__("fractions").Fraction(1, 2)) >= __import__("fractions").Fraction(1, 20):
             break
@@ -705,6 +714,29 @@ def rand_scenario(rng, tier, prop):
     return dict(extra, pat=pat, B=B, sr=sr, silence=silence, sw=sw, ch=ch, p=(mn, mx, sl, rng.random() < .3, rng.random() < .3), obs=kinds,
                 saver=saver, cache_blocks=rng.choice([0, 1, 2, 3, 1000]), stop_after=stop, tail=rng.choice([B, rng.randint(1, B)]),
                 seed=rng.random(), style=rng.choice(["random", "random", "prio", "timeout_storm", "slow_source", "slow_observers", "slow_saver"]))
+
+
+def long_scenarios(rng, tier, prop):
+    """Histories far longer than any bounded model or small random input reaches: hundreds of detections in one run (thousands in the
+    thorough tier, beyond 10^4 once), with the observers that hold per-detection resources (files, descriptors, ids)."""
+    out = []
+    sizes = [400, 700] if tier == "quick" else [400, 1500, 3000, 10100]
+    for n in sizes:
+        if prop == "C14":
+            kinds, stop = ["rec", "regsave"], rng.randint(n, 6 * n)
+        elif prop == "C13":
+            kinds, stop = ["regsave", "rec", "joiner"], None
+        else:
+            kinds, stop = ["command", "rec", "print"], None
+        if n > 5000:
+            kinds = [k for k in kinds if k not in ("command", "joiner")]
+        pat = []
+        while len(pat) < 2 * n:
+            pat += [True] * rng.choice([1, 1, 2]) + [False] * rng.choice([1, 1, 2])
+        out.append(dict(pat=pat, B=rng.choice([1, 2]), sr=100, silence=0.03, sw=rng.choice([1, 2]), ch=1, p=(1, 2, 0, False, False), obs=kinds,
+                        saver=(prop == "C13" and n < 5000), cache_blocks=rng.choice([0, 3]), stop_after=stop, tail=1, seed=rng.random(), style="random",
+                        validator="custom", max_steps=80 * n + 10000, long=True))
+    return out
 
 
 # ------------------------------------------------------------------------------------------------
@@ -823,6 +855,7 @@ def check(prop, tier, replay=None):
                       obs=["print"], stop_after=None, sr=rng.choice([10, 100]))
             sc["sw"] = 2 if sc["sw"] == 1 else sc["sw"]
             scs.append(sc)
+    scs = long_scenarios(rng, tier, prop) + scs
     runs = run_scenarios(scs, tmproot)
     report_runs(V, prop, runs, wd, "T")
     # ---- leg X: EVERY schedule (up to a cap) of tiny configurations on the real threads, depth-first
@@ -886,7 +919,7 @@ def report_runs(V, prop, runs, wd, leg):
     rows, st = judge("WorkersObs", OBS_CFG, obs, wd, "wo_" + leg, weight=lambda x: len(x["stream"]) + 1)
     V.cov["states"] += st
     # step conformance only for runs whose observers are plain workers (the joiner's drain phase is a different thread shape)
-    idx = [i for i, r in enumerate(runs) if "cli" not in r[1]["kinds"] and r[2]["status"] == "done"]
+    idx = [i for i, r in enumerate(runs) if "cli" not in r[1]["kinds"] and r[2]["status"] == "done" and len(r[1]["ev"]) < 20000]
     irows, ist = judge("WorkersTrace", IMPL_CFG, [runs[i][1] for i in idx], wd, "wt_" + leg, strip=lambda x: {"p": x["p"], "ev": x["ev"]})
     V.cov["states"] += ist
     accepted = {i: (r[2] == r[3]) for i, r in zip(idx, irows)}
@@ -898,8 +931,8 @@ def report_runs(V, prop, runs, wd, leg):
             sched_key = [(e["th"], e["pt"]) for e in impl["ev"]]
             V.violation({"sc": {k: v for k, v in sc.items() if k not in ("seed", "schedule")}, "schedule": key_sched(sched_key)},
                         f"pipeline obs={sc['obs']} saver={sc['saver']} cache={sc['cache_blocks']} p={sc['p']} windows="
-                        f"{''.join('A' if v else 'a' for v in sc['pat'])} stop_after={sc['stop_after']} style={sc.get('style')}: status={ob['status']} alive={ob['alive']} "
-                        f"dets={ob['dets']} processed={ob['processed']} file={ob['file'][:12]} blocks_read={len(ob['stream'])} judged={ob['judged']} "
+                        f"{''.join('A' if v else 'a' for v in sc['pat'][:60])}{'...(%d windows)' % len(sc['pat']) if len(sc['pat']) > 60 else ''} stop_after={sc['stop_after']} style={sc.get('style')}: status={ob['status']} alive={ob['alive']} "
+                        f"dets={str(ob['dets'])[:300]} processed={str(ob['processed'])[:300]} file={ob['file'][:12]} blocks_read={len(ob['stream'])} judged={ob['judged']} "
                         f"flags(joined,regfiles,printed,fvalid)={ob['joined_ok'], ob['regfiles_ok'], ob['printed_ok'], ob['fvalid']} violates {prop}",
                         {"leg": leg, "scenario": {k: v for k, v in sc.items() if k != "schedule"}, "observed": ob, "events": impl["ev"]})
         elif i in accepted and not accepted[i]:
@@ -907,7 +940,7 @@ def report_runs(V, prop, runs, wd, leg):
     V.cov["traces_validated_against_impl"] += len(runs)
     V.count(len(runs), (canon([r[1]["p"], r[2]["stream"], [(e["th"], e["pt"]) for e in r[1]["ev"]]]) for r in runs if r[2]["dets"]))
     if runs:
-        big = max(runs, key=lambda r: len(r[1]["ev"]))
+        big = max(runs, key=lambda r: len(r[1]["ev"]) if len(r[1]["ev"]) < 3000 else 0)
         V.sample({"leg": leg, "scenario": {k: v for k, v in big[0].items() if k not in ("schedule", "seed")}, "observed": big[2],
                   "first_events": big[1]["ev"][:25]})
 
